@@ -69,6 +69,7 @@ type stepSpec struct {
 	WSize  int   // GetWriter size
 	Chunks []int // chunk plan of the incoming transport
 	Which  int   // selector (precompiled frame, close code, helper flavour)
+	Cap    bool  // the caller's payload buffer has a capacity that is exactly a pool class (make([]byte, n, class))
 }
 
 type template struct {
@@ -122,7 +123,7 @@ func drawTemplate(t *rapid.T, light bool) template {
 	tp.Client = rapid.Bool().Draw(t, "client")
 	h := &tp.HS
 	if tp.Client {
-		h.Mode = rapid.SampledFrom([]string{"dialer", "dialer", "dialer-flate", "default"}).Draw(t, "mode")
+		h.Mode = rapid.SampledFrom([]string{"dialer", "dialer", "dialer-flate", "default", "shared-dialer"}).Draw(t, "mode")
 	} else {
 		h.Mode = rapid.SampledFrom([]string{"upgrader", "upgrader", "upgrader-flate", "default", "http", "http-flate", "http-default"}).Draw(t, "mode")
 	}
@@ -175,6 +176,7 @@ func drawTemplate(t *rapid.T, light bool) template {
 		}
 		s.WSize = rapid.SampledFrom([]int{128, 200, 512, 4096}).Draw(t, "wsize")
 		s.Which = rapid.IntRange(0, 15).Draw(t, "which")
+		s.Cap = rapid.Bool().Draw(t, "capclass")
 		switch s.Kind {
 		case "ping", "pong":
 			s.Size = s.Size % 126
@@ -385,6 +387,7 @@ type session struct {
 	helper wsflate.Helper
 	ext    wsflate.Extension
 	closed bool
+	kept   []keptBuf // caller-owned buffers handed to write calls; they stay the session's
 
 	overlap bool   // layer 2: another session was inside a step at the same time
 	panicked string // layer 2: recovered panic
@@ -693,6 +696,12 @@ func (s *session) clientHandshake() {
 			}
 		}
 		d.Header = ws.HandshakeHeaderString("X-Cli: " + word(s.id, 6, 8) + "\r\n")
+	case "shared-dialer":
+		// one Dialer value (Protocols, Extensions) used by all sessions; the
+		// server's answer carries parameters that differ from the offer and per session
+		d = sharedUpgradeDialer
+		pick = d.Protocols[s.id%len(d.Protocols)]
+		answer = fmt.Sprintf("permessage-deflate; client_max_window_bits=%d, x-ext; k=v%d", 8+s.id%8, s.id)
 	case "default":
 		pick, answer = "", ""
 	}
@@ -732,6 +741,10 @@ func (s *session) clientHandshake() {
 	req := s.peer.written.String()
 	s.logf("err=%s hs={%s} request={%s} buffered=%d", renderErr(err), renderHS(hs), renderHead(req), buffered)
 	s.expect(err == nil, "client handshake failed: %v", err)
+	if h.Mode == "shared-dialer" {
+		s.expect(strings.Contains(req, "\r\nSec-WebSocket-Extensions: "+sharedOffer+"\r\n"), "the request does not carry the offer configured in the shared Dialer (%s): %s", sharedOffer, renderHead(req))
+		s.expect(renderHS(hs) == "proto="+pick+" | permessage-deflate;client_max_window_bits="+fmt.Sprint(8+s.id%8)+" | x-ext;k=v"+fmt.Sprint(s.id), "client handshake result %s does not reflect the server's answer %q", renderHS(hs), answer)
+	}
 	s.expect(hs.Protocol == pick, "client reports protocol %q, the server selected %q", hs.Protocol, pick)
 }
 
@@ -777,6 +790,38 @@ func (s *session) payload(o op, k int) []byte {
 	return content(s.id, 1000+o.idx*16+k, o.spec.Size, o.spec.Text)
 }
 
+type keptBuf struct {
+	p     []byte
+	sum   string
+	where string
+}
+
+// ownedPayload is the payload in a buffer the session keeps after the write
+// call: with Cap its capacity is exactly a pool size class, the kind of buffer
+// an application gets from make([]byte, n, 4096). The library may read it
+// during the call; it stays the caller's afterwards.
+func (s *session) ownedPayload(o op) []byte {
+	p := s.payload(o, 0)
+	if c := sizeClass(len(p)); o.spec.Cap && c != 0 {
+		q := make([]byte, len(p), c)
+		copy(q, p)
+		p = q
+	}
+	s.kept = append(s.kept, keptBuf{p, digest(p), fmt.Sprintf("payload of step %d (%s, len %d, cap %d)", s.pc, o.name, len(p), cap(p))})
+	return p
+}
+
+// checkKept verifies that the buffers the session owns still hold its bytes.
+func (s *session) checkKept() {
+	for i := range s.kept {
+		k := &s.kept[i]
+		if now := digest(k.p); now != k.sum {
+			s.tr = append(s.tr, fmt.Sprintf("!! the session's own buffer, %s, changed after the call returned: was %s, at step %d it is %s", k.where, k.sum, s.pc, now))
+			k.sum = now
+		}
+	}
+}
+
 // incoming builds what the peer sends for a read step: an optional ping, then
 // one data message in Frag fragments with the ping repeated between fragments.
 func (s *session) incoming(o op) (wire []byte, payload, ping []byte) {
@@ -812,7 +857,7 @@ func (s *session) incoming(o op) (wire []byte, payload, ping []byte) {
 
 func (s *session) stepWriteMsg(o op) {
 	wop, rop := s.opcode(o.spec)
-	p := s.payload(o, 0)
+	p := s.ownedPayload(o)
 	rec := tx.NewRec()
 	var err error
 	if s.tpl.Client {
@@ -1110,6 +1155,27 @@ func (s *session) stepCompiled(o op) {
 	s.logf("%s err=%s wrote=%s", name, renderErr(err), renderWire(rec.Bytes()))
 }
 
+// sharedUpgradeDialer is an application-wide Dialer with offers, used by
+// value for Dialer.Upgrade by every "shared-dialer" session. Read-only for
+// the sessions; the library has to copy what it adjusts per handshake.
+var sharedUpgradeDialer = ws.Dialer{
+	Protocols: []string{"chat.v1", "chat.v2", "soap"},
+	Extensions: []httphead.Option{
+		httphead.NewOption("permessage-deflate", map[string]string{"client_max_window_bits": ""}),
+		httphead.NewOption("x-ext", map[string]string{"k": "offer"}),
+	},
+}
+
+const sharedOffer = "permessage-deflate;client_max_window_bits,x-ext;k=offer"
+
+func renderSharedOffers() string {
+	var parts []string
+	for _, o := range sharedUpgradeDialer.Extensions {
+		parts = append(parts, renderOption(o))
+	}
+	return strings.Join(parts, " | ") + " protocols=" + strings.Join(sharedUpgradeDialer.Protocols, ",")
+}
+
 // --- wss dial through the Dialer value all sessions share --------------------
 
 // sharedTLS / sharedDialer play the role of an application-wide Dialer: one
@@ -1377,7 +1443,7 @@ func (s *session) step() {
 	case "br-put":
 		s.stepBrPut()
 	case "hs-recheck":
-		s.logf("err=%s hs={%s}", renderErr(s.hsErr), renderHS(s.hs))
+		s.logf("err=%s hs={%s} own-buffers=%d", renderErr(s.hsErr), renderHS(s.hs), len(s.kept))
 	default:
 		if s.hsErr != nil {
 			s.logf("skipped (handshake failed)")
@@ -1430,6 +1496,7 @@ func (s *session) step() {
 			panic("harness: unknown op " + o.name)
 		}
 	}
+	s.checkKept()
 	s.pc++
 }
 
